@@ -142,6 +142,13 @@ int main() {
                     if (s[0].type == s[1].type && s[0].v == s[1].v && x != y &&
                         io(x, y) != osmium::object_order_type_id_version_without_timestamp{}(*o[0], *o[1])) return "fail:id-rule-consistency:id_order";
                 }
+                // newest-first agrees with operator< across objects and reverses it between versions of one object
+                {
+                    const bool same_obj = s[0].type == s[1].type && s[0].id == s[1].id;
+                    const bool rev = osmium::object_order_type_id_reverse_version{}(*o[0], *o[1]);
+                    if (!same_obj && rev != osmium::object_order_type_id_version{}(*o[0], *o[1])) return "fail:rev-vs-lt-different-objects:rev";
+                    if (same_obj && s[0].v != s[1].v && rev != osmium::object_order_type_id_version{}(*o[1], *o[0])) return "fail:rev-vs-lt-versions:rev";
+                }
                 // agreement with equality
                 const bool inc = !osmium::object_order_type_id_version_without_timestamp{}(*o[0], *o[1]) &&
                                  !osmium::object_order_type_id_version_without_timestamp{}(*o[1], *o[0]);
